@@ -97,8 +97,6 @@ def pairwise_part(run, scratch, cfg, systems_per_pair):
             fn = global_pairwise if mode == "global" else local_pairwise
             results = {}
             for limit_name, limit in (("full-dp", 10**8), ("hirschberg", 0)):
-                if mode == "local" and limit == 0:
-                    continue
                 pairwise.HIRSCHBERG_LIMIT = limit
                 try:
                     aln, score = fn(s1, s2, S, d, e, return_score=True)
@@ -123,6 +121,7 @@ def pairwise_part(run, scratch, cfg, systems_per_pair):
                     case["a_better_path"] = max(scores, key=scores.get)
                     run.fail(f"pairwise:{mode}:{limit_name}:not-optimal:{opt_ends}", case, what="another path scores higher than the returned one")
             if len(results) == 2:
+                # (local alignment never takes the linear-space path: lowering the threshold must change nothing)
                 (g1, sc1), (g2, sc2) = results["full-dp"], results["hirschberg"]
                 if abs(sc1 - sc2) > TOL * max(1.0, abs(sc1)):
                     run.fail(f"pairwise:{mode}:hirschberg-score-differs", {"s1": a, "s2": b, "S": sn, "d": d, "e": e, "full": results["full-dp"], "hirschberg": results["hirschberg"]}, what="linear-space and full DP disagree on the score")
